@@ -2380,3 +2380,70 @@ Proof.
   pose proof (Z.div_mod (ex - now + 50000000) 100000000 ltac:(lia)) as Hd.
   pose proof (Z.mod_pos_bound (ex - now + 50000000) 100000000 ltac:(lia)) as Hm. lia.
 Qed.
+
+(* ------------------------------------------------------------------ 13. file names *)
+
+Lemma msorted_put_file p f fs : msorted fs -> msorted (put_file p f fs).
+Proof. intros H. unfold put_file. destruct f; [apply msorted_set | apply msorted_del]; exact H. Qed.
+
+Lemma get_put_file p f (fs : fsys) q : msorted fs ->
+  get q (put_file p f fs) = if bytes_eqb q p then f else get q fs.
+Proof.
+  intros Hs. unfold put_file. destruct (bytes_eqb q p) eqn:E.
+  - apply bytes_eqb_eq in E; subst q. destruct f; [apply get_set_same | apply get_del_same; exact Hs].
+  - apply eqb_false_neq in E. destruct f; [apply get_set_other | apply get_del_other]; exact E.
+Qed.
+
+Lemma app_neq_self {A} (n s : list A) : s <> [] -> n <> n ++ s.
+Proof. intros Hs H. apply (f_equal (@length A)) in H. rewrite app_length in H. destruct s; [congruence | cbn in H; lia]. Qed.
+
+Lemma name_neq_bak n : n <> bak_name n.
+Proof. apply app_neq_self. discriminate. Qed.
+
+Lemma name_neq_shrink n : n <> shrink_name n.
+Proof. apply app_neq_self. discriminate. Qed.
+
+Lemma bak_neq_shrink n : bak_name n <> shrink_name n.
+Proof. unfold bak_name, shrink_name. intros H. apply app_inv_head in H. discriminate. Qed.
+
+Lemma get_to_fs n d rest : msorted rest ->
+  get n (to_fs n d rest) = d_live d /\ get (bak_name n) (to_fs n d rest) = d_bak d.
+Proof.
+  intros Hs. unfold to_fs.
+  pose proof (msorted_put_file (shrink_name n) (d_shrink d) rest Hs) as H1.
+  pose proof (msorted_put_file (bak_name n) (d_bak d) _ H1) as H2.
+  split.
+  - rewrite get_put_file by exact H2. rewrite bytes_eqb_refl. reflexivity.
+  - rewrite get_put_file by exact H2. rewrite (proj2 (eqb_false_neq _ _)) by (intros E; apply (name_neq_bak n); symmetry; exact E).
+    rewrite get_put_file by exact H1. rewrite bytes_eqb_refl. reflexivity.
+Qed.
+
+(* the named start-up (restore <name>-bak, open <name>) is the directory-level repaired start-up,
+   for every configured name and whatever other files are around *)
+Theorem recover_fs_is_recover_dir n d rest : msorted rest -> recover_fs n n (to_fs n d rest) = recover_dir d.
+Proof.
+  intros Hs. destruct (get_to_fs n d rest Hs) as [Hl Hb]. unfold recover_fs, restore_backup, recover_dir.
+  rewrite Hl. destruct (d_live d) as [l|].
+  - rewrite Hl. reflexivity.
+  - rewrite Hb. destruct (d_bak d) as [b|].
+    + rewrite get_set_same. reflexivity.
+    + rewrite Hl. reflexivity.
+Qed.
+
+Theorem crash_points_named n rest fi c : msorted rest -> crash_hyp fi ->
+  let s := recover_fs n n (to_fs n (crash_at fi c) rest) in
+  same_data s (replay (f_live fi) []) \/ same_data s (replay (f_live fi ++ f_pend fi) []).
+Proof. intros Hs H s. unfold s. rewrite recover_fs_is_recover_dir by exact Hs. apply crash_points; exact H. Qed.
+
+(* a restore that looks under another name than the one the server opens comes up empty *)
+Theorem restore_other_name_refuted :
+  exists n0 n fi, n0 <> n /\ crash_hyp fi /\ (exists k i v, lookup k i (replay (f_live fi) []) = Some v) /\
+    recover_fs n0 n (to_fs n (crash_at fi CP_after_rename_bak) []) = [].
+Proof.
+  exists (b1 97), (b1 98), fi_small. split; [discriminate|]. split; [intros k i; reflexivity|]. split; [|reflexivity].
+  exists (b1 97), (b1 49), (mkObj (b1 120) [] false). vm_compute. reflexivity.
+Qed.
+
+(* a five-byte log name ("x.aof") and an unrelated file ("zz") *)
+Definition ex_name : bytes := [120; 46; 97; 111; 102]%N.
+Definition ex_rest : fsys := [([122; 122]%N, [CFlushdb])].
